@@ -133,6 +133,10 @@ def gen_run(rng, cfg):
             # the caller post-processes an AST it got earlier (appends to its string lists)
             ops.append({"op": "mutate", "target": rng.randrange(16), "items": []})
             bases.append([])
+        if ops and rng.random() < 0.04:
+            # the caller copies / pickles / prints / introspects its long-lived objects
+            ops.append({"op": "poke", "what": rng.sample(["repr", "copy", "deepcopy", "pickle", "dir", "eq"], rng.randrange(1, 5)), "items": []})
+            bases.append([])
         op = {"op": kind}
         items = list(rng.choice(pool))
         same_again = False
